@@ -125,8 +125,8 @@ def _worker(args):
                     out["sigs"].add(rep.sig)
                 if rep.nontrivial is not None:
                     out["nontrivial"].add(rep.nontrivial)
-                    if len(out["samples"]) < 1:
-                        out["samples"].append(plan)
+                    if len(out["samples"]) < 3:
+                        out["samples"].append((idx, plan))
                 if rep.violations:
                     v = rep.violations[0]
                     out["violations"].append({"idx": idx, "plan": plan, "violation": v.to_json(), "digest": rep.digest})
@@ -221,8 +221,8 @@ def main_check(prop, tier, replay=None):
         agg["nontrivial"] |= r["nontrivial"]
         agg["sigs"] |= r["sigs"]
         agg["violations"].extend(r["violations"])
-        if len(agg["samples"]) < 3:
-            agg["samples"].extend(r["samples"][: 3 - len(agg["samples"])])
+        agg["samples"].extend(r["samples"])
+    agg["samples"] = [p for (_, p) in sorted(agg["samples"], key=lambda t: t[0])[:3]]
     wall_search = time.time() - t0
     if harness_errors:
         print("HARNESS-ERROR property=%s\n%s" % (prop, harness_errors[0]), flush=True)
@@ -302,8 +302,9 @@ def write_evidence(suite, prop, tier, master, agg, wall, wall_search, n_planned,
     extra = getattr(suite, "extra_evidence", None)
     if extra:
         ev["coverage"].update(extra(agg))
-    os.makedirs(os.path.join(core.VERIF_DIR, "evidence"), exist_ok=True)
-    with open(os.path.join(core.VERIF_DIR, "evidence", prop + ".json"), "w") as f:
+    evdir = os.environ.get("VERIF_EVIDENCE_DIR") or os.path.join(core.VERIF_DIR, "evidence")
+    os.makedirs(evdir, exist_ok=True)
+    with open(os.path.join(evdir, prop + ".json"), "w") as f:
         json.dump(ev, f, indent=1, sort_keys=False, default=str)
 
 
@@ -320,7 +321,7 @@ def finalize_violation(suite, v):
     small, n_tests = shrink.shrink(suite, plan, vio["clause"], budget_s=float(os.environ.get("VERIF_SHRINK_S", 60)))
     rep2 = run_one(suite, small)
     v2 = [x for x in rep2.violations if x.clause == vio["clause"]][0]
-    d = os.path.join(core.VERIF_DIR, "replays", suite.prop)
+    d = os.path.join(os.environ.get("VERIF_REPLAY_DIR") or os.path.join(core.VERIF_DIR, "replays"), suite.prop)
     os.makedirs(d, exist_ok=True)
     path = os.path.join(d, "%d.json" % plan.get("run_seed", 0))
     rec = {"property": suite.prop, "violation": v2.to_json(), "digest": rep2.digest, "plan": small,
